@@ -2,9 +2,11 @@ package main
 
 import (
 	"fmt"
+	"os"
 
 	"verifharness/internal/h"
 
+	"github.com/dominant-strategies/go-quai/common"
 	"github.com/dominant-strategies/go-quai/core/rawdb"
 	"github.com/dominant-strategies/go-quai/log"
 )
@@ -13,23 +15,69 @@ func init() { areas["chain"] = runChain }
 
 func runChain(seed uint64, n int, outDir string, replay string) {
 	o := h.NewOut(outDir, "chain")
-	node, err := newZoneNode(rawdb.NewMemoryDatabase(log.Global))
+	rg := cwRegime{preTx: os.Getenv("QVH_PRETX") != ""}
+	cwSetParams(rg)
+	w, err := newWorld(rawdb.NewMemoryDatabase(log.Global), h.NewRng(seed), rg, zoneOpts{})
 	if err != nil {
 		fmt.Println("ERR", err)
 		o.Close(nil)
 		return
 	}
-	for i := 0; i < 8; i++ {
-		blk, err := node.nextBlock()
+	var prev cwScan
+	for i := 0; i < n; i++ {
+		st, err := w.step()
 		if err != nil {
-			fmt.Println("ERR next", err)
+			fmt.Fprintln(os.Stderr, "step", i, "ERR", err)
 			break
 		}
-		err = node.appendBlock(blk)
-		fmt.Println("append", i, blk.NumberArray(), err)
-		if err != nil {
-			break
+		blk := st.blk
+		sc := scanLedger(w.node.db, w.node.loc)
+		if sc.root() != blk.UTXORoot() && os.Getenv("QVH_DEBUG") != "" {
+			old := map[string]bool{}
+			for _, x := range append(append([]string{}, prev.utxos...), prev.lockups...) {
+				old[x] = true
+			}
+			cur := map[string]bool{}
+			for _, x := range append(append([]string{}, sc.utxos...), sc.lockups...) {
+				cur[x] = true
+				if !old[x] {
+					fmt.Fprintln(os.Stderr, "   + ", x)
+				}
+			}
+			sp, _ := rawdb.ReadSpentUTXOs(w.node.db, blk.Hash())
+			tr, _ := rawdb.ReadTrimmedUTXOs(w.node.db, blk.Hash())
+			ck, _ := rawdb.ReadCreatedUTXOKeys(w.node.db, blk.Hash())
+			fmt.Fprintln(os.Stderr, "   undo: spent", len(sp), "trimmed", len(tr), "createdkeys", len(ck))
+			for _, x := range sp {
+				fmt.Fprintf(os.Stderr, "     spent %x:%d\n", x.TxHash[:4], x.Index)
+			}
+			for _, x := range tr {
+				fmt.Fprintf(os.Stderr, "     trimmed %x:%d\n", x.TxHash[:4], x.Index)
+			}
+			for i, tx := range blk.Transactions() {
+				fmt.Fprintf(os.Stderr, "     blocktx %d type %d hash %x\n", i, tx.Type(), tx.Hash().Bytes()[:4])
+			}
+			for x := range old {
+				if !cur[x] {
+					fmt.Fprintln(os.Stderr, "   - ", x)
+				}
+			}
+		}
+		prev = sc
+		fmt.Fprintln(os.Stderr, "blk", blk.NumberArray(), "order", st.order, "txs", len(blk.Transactions()), "out", len(blk.OutboundEtxs()), "inbound", len(st.inbound),
+			"utxos", len(sc.utxos), "lockups", len(sc.lockups), "setsize", rawdb.ReadUTXOSetSize(w.node.db, blk.Hash()), "rootok", sc.root() == blk.UTXORoot(), "diff", blk.Difficulty(), "gasused", blk.GasUsed())
+		if os.Getenv("QVH_DEBUG") != "" {
+			rs := rawdb.ReadReceipts(w.node.db, blk.Hash(), blk.NumberU64(common.ZONE_CTX), w.node.sl.Config())
+			for i, r := range rs {
+				tx := blk.Transactions()[i]
+				if tx.Type() == 2 {
+					fmt.Fprintln(os.Stderr, "   tx", i, "qi ins", len(tx.TxIn()), "outs", len(tx.TxOut()), "status", r.Status, "gas", r.GasUsed)
+					continue
+				}
+				fmt.Fprintln(os.Stderr, "   tx", i, "type", tx.Type(), "to", tx.To(), "status", r.Status, "gas", r.GasUsed, "contract", r.ContractAddress)
+			}
 		}
 	}
+	fmt.Fprintln(os.Stderr, w.hist)
 	o.Close(nil)
 }
